@@ -356,7 +356,7 @@ void probe(Ctx& c, std::size_t k)
 }
 #elif VF_PROBE == 9
 constexpr char const* PNAME = "subext";
-constexpr std::uint64_t NCASE = 125;
+constexpr std::uint64_t NCASE = 25;
 template <typename X>
 void expect_ext(Ctx const& c, char const* op, X const& x, std::initializer_list<LL> exp, std::initializer_list<std::size_t> exp_static)
 {
